@@ -2,6 +2,7 @@
    Statements only; proofs are in Proofs/Money.v and Proofs/Supply.v. *)
 From Hub Require Import Base.Prelude Base.Arith Model.Types Model.Keeper Model.Handlers Model.Hooks Model.Step.
 From Hub Require Import Proofs.Tactics Proofs.Frames Proofs.Money Proofs.Supply.
+From Hub Require Import Gen.Wiring Proofs.WiringThm.
 
 (* After every operation of every history (every block, every transaction valid or
    not, from any actor that is not a module account) started in a state satisfying the
@@ -49,8 +50,21 @@ Proof.
   - intros a c0 H. simpl in H. apply elem_of_list_singleton in H. injection H as -> _. discriminate.
 Qed.
 
+Section wiring.
+Local Open Scope string_scope.
+(* app wiring (regenerated from app/module.go on every run): the escrow account can neither mint nor burn,
+   and every module account is a blocked recipient *)
+Theorem C01_escrow_account_cannot_mint_or_burn : perms_of "deposittypes.ModuleName" = Some [].
+Proof. exact deposit_cannot_mint_or_burn. Qed.
+Theorem C01_payees_are_module_accounts :
+  perms_of "authtypes.FeeCollectorName" = Some [] /\ perms_of "distributiontypes.ModuleName" = Some [] /\ blocked_is_all_module_accounts = true.
+Proof. exact payees_are_module_accounts. Qed.
+End wiring.
+
 Print Assumptions C01_escrow_backed.
 Print Assumptions C01_balances_add_up_to_supply.
 Print Assumptions C01_invariant_inductive.
 Print Assumptions C01_genesis.
 Print Assumptions C01_no_mint_no_burn.
+Print Assumptions C01_escrow_account_cannot_mint_or_burn.
+Print Assumptions C01_payees_are_module_accounts.
